@@ -248,7 +248,8 @@ Section Model.
                      else srt_ret (c, 0)) ;;
               let '(c, dups) := cd in
               t <- srt_less (b - 1) pivot ;;
-              let '(b, dups) := (if negb t then (b - 1, dups + 1) else (b, dups)) in
+              bd <- srt_ret (if negb t then (b - 1, dups + 1) else (b, dups)) ;;
+              let '(b, dups) := bd in
               t <- srt_less m pivot ;;
               bd <- (if negb t then srt_swap m (b - 1) ;;; srt_ret (b - 1, dups + 1)
                      else srt_ret (b, dups)) ;;
